@@ -331,6 +331,16 @@ package spec
 // path.Clean
 //@ axiom forall p string :: pathClean(pathClean(p)) == pathClean(p) && pathClean(p) != "" && hasPrefix(pathClean(p), "/") == hasPrefix(p, "/")
 //@ axiom pathClean("") == "." && pathClean(".") == "." && pathClean("/") == "/"
+// a clean path has no empty segment; a suffix of a clean path that starts at a segment boundary is clean; "//x" cleans like "/x".
+// The last two laws have no usable trigger and are instantiated by hand where a lemma needs them (cleanSuffixLaw, rootJoinLaw).
+//@ define noEmptySegmentLaw(p string) bool = pathClean(p) == p ==> !contains(p, "//")
+//@ define cleanSuffixLaw(a string, r string) bool = pathClean(a + r) == a + r && hasSuffix(a, "/") && r != "" ==> pathClean(r) == r && r != "." && !hasPrefix(r, "/")
+//@ define trailingSlashLaw(d string) bool = pathClean(d) == d && hasSuffix(d, "/") ==> d == "/"
+// a fact of string theory, used as a hint (it is itself proved as lemma strDecomp below)
+//@ define strDecomp(p string, a string) bool = hasPrefix(p, a) ==> p == a + substr(p, len(a), len(p) - len(a))
+//@ define rootJoinLaw(x string) bool = pathClean("/" + "/" + x) == pathClean("/" + x)
+// a clean path has no empty segment; a suffix of a clean path that starts at a segment boundary is clean
+
 // the empty string parses to the empty record
 //@ axiom urlOK("") && urlScheme("") == "" && urlHost("") == "" && urlPath("") == "" && urlQuery("") == "" && urlFrag("") == ""
 // the working directory can be determined (filepath.Abs succeeds); when it cannot, normalizeBase keeps a relative path: stated exception of C11
@@ -403,3 +413,113 @@ package spec
 //@   ensures  file-no-query @@ cwdAvailable() && (!urlOK(in) || urlScheme(in) == "" || (urlScheme(in) == "file" && !hasPrefix(pathClean(urlPath(in)), "/"))) ==> urlScheme(result) == "file" && urlQuery(result) == ""
 //@   ensures  keeps-scheme @@ urlOK(in) && urlScheme(in) != "" && urlScheme(in) != "file" ==> urlScheme(result) == urlScheme(in) && urlHost(result) == urlHost(in) && urlQuery(result) == urlQuery(in)
 //@   ensures  idempotent @@ canonicalURL(in) && in == urlStr(urlScheme(in), urlHost(in), urlPath(in), urlQuery(in), "") ==> result == in
+
+// ---- jsonreference (assumed): a Ref made from a string holds the parsed, normalised record
+
+//@ axiom forall s string, h string :: (normHost(s, h) == "") == (h == "")
+//@ axiom forall s string, h string :: normHost(s, normHost(s, h)) == normHost(s, h)
+//@ axiom forall p string :: dedupSlashes(dedupSlashes(p)) == dedupSlashes(p) && hasPrefix(dedupSlashes(p), "/") == hasPrefix(p, "/") && (dedupSlashes(p) == "") == (p == "")
+
+//@ ext github.com/go-openapi/jsonreference.MustCreateRef
+//@   params ref
+//@   assigns nothing
+//@   requires urlOK(ref)
+//@   ensures result.referenceURL != nil && freshObj(result.referenceURL)
+//@   ensures result.referenceURL.Scheme == urlScheme(ref) && result.referenceURL.Host == normHost(urlScheme(ref), urlHost(ref))
+//@           && result.referenceURL.Path == dedupSlashes(urlPath(ref)) && result.referenceURL.RawQuery == urlQuery(ref) && result.referenceURL.Fragment == urlFrag(ref)
+//@   ensures result.HasFullURL == (urlScheme(ref) != "" && urlHost(ref) != "")
+//@   ensures result.HasURLPathOnly == (!result.HasFullURL && urlPath(ref) != "")
+//@   ensures result.HasFragmentOnly == (!result.HasFullURL && urlPath(ref) == "" && urlQuery(ref) == "" && urlFrag(ref) != "")
+//@   ensures result.HasFileScheme == (urlScheme(ref) == "file") && result.HasFullFilePath == hasPrefix(urlPath(ref), "/")
+
+//@ ext (*github.com/go-openapi/jsonreference.Ref).String
+//@   params r
+//@   pure
+//@   requires r != nil
+//@   ensures r.referenceURL != nil ==> result == urlStr(r.referenceURL.Scheme, r.referenceURL.Host, r.referenceURL.Path, r.referenceURL.RawQuery, r.referenceURL.Fragment)
+//@   ensures r.referenceURL == nil ==> result == ""
+
+//@ ext (*github.com/go-openapi/jsonreference.Ref).GetURL
+//@   params r
+//@   pure
+//@   requires r != nil
+//@   ensures result == r.referenceURL
+
+//@ ext (*github.com/go-openapi/jsonreference.Ref).IsCanonical
+//@   params r
+//@   pure
+//@   requires r != nil
+//@   ensures result == ((r.HasFileScheme && r.HasFullFilePath) || (!r.HasFileScheme && r.HasFullURL))
+
+//@ ext (*github.com/go-openapi/jsonreference.Ref).IsRoot
+//@   params r
+//@   pure
+//@   requires r != nil
+//@   ensures result == (r.referenceURL != nil && !((r.HasFileScheme && r.HasFullFilePath) || (!r.HasFileScheme && r.HasFullURL)) && !r.HasURLPathOnly && r.referenceURL.Fragment == "")
+
+// ===========================================================================
+// C12 — locating $ref targets (normalizer.go: normalizeURI)
+// ===========================================================================
+
+// the cleaned path of a reference as normalizeURI computes it
+//@ define refPathOf(x string) string = pathClean(urlPath(x)) == "." ? "" : pathClean(urlPath(x))
+// is the reference absolute (canonical in jsonreference's sense) once its path is cleaned
+//@ define refIsAbsolute(x string) bool = (urlScheme(x) == "file" && hasPrefix(refPathOf(x), "/")) || (urlScheme(x) != "file" && urlScheme(x) != "" && urlHost(x) != "")
+
+//@ func normalizeURI
+//@   property C12
+//@   requires urlOK(base)
+//@   assigns  nothing
+//@   ensures  absolute-kept @@ urlOK(refPath) && refIsAbsolute(refPath) ==> result == urlStr(urlScheme(refPath), urlHost(refPath), refPathOf(refPath), urlQuery(refPath), urlFrag(refPath))
+//@   ensures  relative-joined @@ urlOK(refPath) && !refIsAbsolute(refPath) ==> result == urlStr(urlScheme(base), urlHost(base),
+//@               (hasPrefix(refPathOf(refPath), "/") ? refPathOf(refPath) : (refPathOf(refPath) == "" ? urlPath(base) : pathJoin2(pathDir(urlPath(base)), refPathOf(refPath)))),
+//@               urlQuery(base), urlFrag(refPath))
+//@   ensures  fragment-only-self @@ urlOK(refPath) && urlScheme(refPath) == "" && urlHost(refPath) == "" && urlPath(refPath) == "" ==> urlPath(result) == urlPath(base) && urlScheme(result) == urlScheme(base) && urlHost(result) == urlHost(base)
+//@   ensures  invalid-ref @@ !urlOK(refPath) ==> result == urlStr(urlScheme(base), urlHost(base), urlPath(base), urlQuery(base), "")
+
+// ===========================================================================
+// rebase law L4 (C02, C03, C09): normalizer.go denormalizeRef / rebase
+// ===========================================================================
+
+// a canonical $ref as normalizeURI produces it against a canonical base: canonical location plus any fragment
+//@ define canonicalRef(x string) bool = urlOK(x) && urlScheme(x) != "" && x == urlStr(urlScheme(x), urlHost(x), urlPath(x), urlQuery(x), urlFrag(x))
+//@    && hasPrefix(urlPath(x), "/") && pathClean(urlPath(x)) == urlPath(x)
+//@    && normHost(urlScheme(x), urlHost(x)) == urlHost(x)
+//@    && (urlScheme(x) == "file" ==> urlQuery(x) == "")
+//@    && (urlScheme(x) != "file" ==> urlHost(x) != "")
+
+//@ func verifLemmaRebase
+//@   property C02, C03, C09
+//@   requires canonicalRef(c)
+//@   requires canonicalRef(rootBase) && urlFrag(rootBase) == "" && urlQuery(rootBase) == ""
+//@   requires urlQuery(c) == "" && !hasSuffix(urlPath(c), "/") && !hasSuffix(urlPath(rootBase), "/")
+//@   requires cleanSuffixLaw(pathDir(urlPath(rootBase)) + "/", substr(urlPath(c), len(pathDir(urlPath(rootBase))) + 1, len(urlPath(c)) - len(pathDir(urlPath(rootBase))) - 1))
+//@   requires cleanSuffixLaw("/", substr(urlPath(c), 1, len(urlPath(c)) - 1))
+//@   requires rootJoinLaw(substr(urlPath(c), 1, len(urlPath(c)) - 1))
+//@   requires trailingSlashLaw(pathDir(urlPath(rootBase)))
+//@   requires strDecomp(urlPath(c), pathDir(urlPath(rootBase)) + "/")
+//@   ensures  other-origin @@ (urlScheme(c) != urlScheme(rootBase) || urlHost(c) != urlHost(rootBase)) ==> result == c
+//@   ensures  same-document @@ urlScheme(c) == urlScheme(rootBase) && urlHost(c) == urlHost(rootBase) && urlPath(c) == urlPath(rootBase) ==> result == c
+//@   ensures  other-directory @@ urlScheme(c) == urlScheme(rootBase) && urlHost(c) == urlHost(rootBase) && urlPath(c) != urlPath(rootBase)
+//@               && !hasPrefix(urlPath(c), urlPath(rootBase) + "/")
+//@               && !hasPrefix(urlPath(c), (pathDir(urlPath(rootBase)) == "/" ? "/" : pathDir(urlPath(rootBase)) + "/")) ==> result == c
+//@   ensures  below-directory @@ urlScheme(c) == urlScheme(rootBase) && urlHost(c) == urlHost(rootBase) && urlPath(c) != urlPath(rootBase)
+//@               && !hasPrefix(urlPath(c), urlPath(rootBase) + "/")
+//@               && pathDir(urlPath(rootBase)) != "/" && hasPrefix(urlPath(c), pathDir(urlPath(rootBase)) + "/") ==> result == c
+//@   ensures  below-root-directory @@ urlScheme(c) == urlScheme(rootBase) && urlHost(c) == urlHost(rootBase) && urlPath(c) != urlPath(rootBase)
+//@               && !hasPrefix(urlPath(c), urlPath(rootBase) + "/")
+//@               && pathDir(urlPath(rootBase)) == "/" ==> result == c
+//@   ensures  below-document @@ urlScheme(c) == urlScheme(rootBase) && urlHost(c) == urlHost(rootBase) && hasPrefix(urlPath(c), urlPath(rootBase) + "/") ==> result == c
+
+//@ func verifLemmaRefString
+//@   property C13
+//@   requires canonicalRef(c)
+//@   ensures  result == c
+
+//@ func verifLemmaDenorm
+//@   property C02
+//@   requires canonicalRef(c)
+//@   requires canonicalRef(rootBase) && urlFrag(rootBase) == "" && urlQuery(rootBase) == ""
+//@   requires urlQuery(c) == "" && !hasSuffix(urlPath(c), "/") && !hasSuffix(urlPath(rootBase), "/")
+//@   ensures  d1 @@ urlScheme(c) != urlScheme(rootBase) ==> result == c
+//@   ensures  d2 @@ urlScheme(c) == urlScheme(rootBase) && urlHost(c) == urlHost(rootBase) && urlPath(c) == urlPath(rootBase) ==> result == urlStr("", "", "", "", urlFrag(c))
